@@ -215,6 +215,12 @@ fn inject(e: &mut Ent, p: &Prog, fault: &str) -> (Prog, String) {
             }
             q.env.defs.push((format!("{base}{k}"), end));
             let name = format!("{base}0");
+            // the alias is sometimes also used, legitimately, by a definition that the
+            // checker visits before (or after) the service
+            if e.bool() {
+                let user = fresh_name(&q, if e.bool() { "A0_uses_alias" } else { "zz_uses_alias" });
+                q.env.defs.push((user, Ty::Record(vec![(Lab::Named("x".into()), Ty::opt(Ty::Var(name.clone())))])));
+            }
             let q0 = q.clone();
             q = edit_somewhere(e, &q0, &mut |t| {
                 let mut ms: Vec<(String, Ty)> = match t {
